@@ -467,6 +467,23 @@ theorem mounted_struct_call (p rest : Str) (hp : p ≠ []) (h : EscWF rest) (hr 
       simp only [this, Bool.false_eq_true, if_false, hb]
       cases F.structGate.lookup bfmt <;> rfl
 
+/-- A lock that refuses (`LockError::Poisoned` after a panic under a std lock, or `LockError::Other`
+from a user `Lockable`) never lets the request reach `repe_handle`; the body checks still come first. -/
+theorem lock_refused_never_handles (S : Nat) (g : Gate) (e : Bool) (root path : Str) (bfmt : Nat) (body : Bytes)
+    (decodes : Decoder → Bool) (segs : List Str) (b : Bool) :
+    structCall S g e root path bfmt body decodes true ≠ .handle segs b := by
+  unfold structCall
+  cases relativePointer root path with
+  | none => simp
+  | some rel =>
+    simp only [if_true]
+    cases structBodyGate g e bfmt body with
+    | none => simp
+    | some o =>
+      cases o with
+      | none => simp
+      | some d => by_cases hd : decodes d = true <;> simp [hd]
+
 /-- the struct mount and the `JsonTypedHandler` adapter gate body formats exactly like the JSON/typed
 decoders (facts): JSON and UTF-8 through serde_json, BEVE through beve, everything else InvalidBody -/
 theorem struct_and_adapter_gates :
